@@ -82,10 +82,10 @@ def gen_hist(kinds=("dt",), quick=400, thorough=6000, **kw):
     return g
 
 # ------------------------------------------------------------------ classification helpers
-def nontrivial(c):
+def nontrivial(c, minops=3):
     """non-trivial: at least three operations and either a non-insert operation, a duplicate position,
     or a degenerate style; distinctness is by hash of the full op list + configuration"""
-    if len(c.ops) < 3:
+    if len(c.ops) < (2 if c.meta.get("style") in ("refine", "bulk") else minops):
         return False
     names = [o.split()[0] for o in c.ops]
     if any(n not in ("ins",) for n in names):
@@ -275,7 +275,7 @@ PROPS.update({
 
 CDT_RULE = STATE_RULE + " On CDTs additionally add_constraint / try_add_constraint / add_constraint_edge / remove_constraint_edge / add_constraint_and_split between random vertex pairs (many through vertices, overlapping edges, crossing constraints)."
 PROPS.update({
- "C03": dict(gen=gen_hist(kinds=("cdt",), quick=1500, thorough=15000, w_addc=14, w_rmc=5, w_tryc=6, w_adde=5, w_split=0),
+ "C03": dict(gen=gen_hist(kinds=("cdt",), quick=1500, thorough=15000, w_addc=14, w_rmc=5, w_tryc=6, w_adde=5, w_split=6),
              tags=["cdtlocal", "dt_when_free", "parse", "decode"], level="proof", rule=CDT_RULE, theorems="Props/C03.v", assumptions=[]),
  "C04": dict(gen=gen_hist(kinds=("cdt",), quick=1500, thorough=15000, w_addc=16, w_rmc=6, w_tryc=6, w_adde=5, w_lrm=8, w_trm=6, w_clear=2),
              tags=["ncons", "noncross", "segspec", "parse", "decode"], level="proof", rule=CDT_RULE, theorems="Props/C04.v", assumptions=[]),
@@ -480,3 +480,221 @@ def gen_shifted_nn(quick, thorough):
     return g
 PROPS["C15"]["gen"] = gen_union(PROPS["C15"]["gen"], gen_shifted_nn(300, 3000))
 PROPS["C09"]["gen"] = gen_union(PROPS["C09"]["gen"], gen_lattice_cdt(300, 3000))
+
+def gen_prims(quick, thorough):
+    """primitive-level cases for the model correspondence (hint generator `last` only: primitives bypass notifications)"""
+    def g(r, tier):
+        out = []
+        for i in range(n_cases(tier, quick, thorough)):
+            kind = r.choice(["dt", "cdt"])
+            c = Case("p%d" % i, kind, "f64", "last")
+            c.meta = {"style": "prims", "kind": kind, "scalar": "f64", "hint": "last", "only_tags": ["corr", "parse"]}
+            def v():
+                return "%d %d %d" % (bits(float(r.range(-9, 9))), bits(float(r.range(-9, 9))), 100 + len(c.ops))
+            if r.chance(0.5):
+                # (a) pure topology from scratch: arbitrary coordinates
+                c.add("prim ifv 0", v()); c.add("prim isv 0", v())
+                for _ in range(r.range(0, 3)):
+                    c.add("prim", r.choice(["ext", "sel"]), r.below(64), v())
+                c.add("prim cnf", r.below(64), v())
+                for _ in range(r.range(4, 24)):
+                    nm = r.weighted([("iit", 5), ("se", 4), ("she", 3), ("cnf", 3), ("csf", 3), ("flip", 5)])
+                    if nm in ("csf", "flip"):
+                        c.add("prim", nm, r.below(256))
+                    else:
+                        c.add("prim", nm, r.below(256), v())
+            else:
+                # (b) geometrically valid: a Delaunay triangulation, spoiled by flips of convex quadrilaterals, then legalized
+                pts = gen.point_cloud(r, r.range(5, 16), r.choice(["grid", "grid", "circle", "cluster"]), False)
+                for j, (x, y) in enumerate(pts):
+                    c.ins(x, y, j + 1)
+                if kind == "cdt" and r.chance(0.5):
+                    for _ in range(r.range(1, 3)):
+                        c.add("addc", "v%d" % r.below(64), "v%d" % r.below(64))
+                for _ in range(r.range(2, 8)):
+                    for _ in range(r.range(1, 5)):
+                        c.add("prim cflip", r.below(256))
+                    for _ in range(r.range(1, 4)):
+                        c.add("prim", r.choice(["leg", "legf"]), r.below(256))
+            out.append(c)
+        return out
+    return g
+
+PROPS["C02"]["gen"] = gen_union(PROPS["C02"]["gen"], gen_prims(500, 5000))
+PROPS["C02"]["model"] = True
+PROPS["C02"]["tags"] = PROPS["C02"]["tags"] + ["corr"]
+
+def gen_C06(r, tier):
+    out = []
+    tuple_styles = [('unimod', 25), ('bigcol', 15), ('ulp', 20), ('circle', 15), ('mag', 15), ('grid', 10)]
+    for i in range(n_cases(tier, 150, 2000)):
+        scalar = "f32" if r.chance(0.25) else "f64"
+        c = Case("t%d" % i, "dt", scalar, "last")
+        c.meta = {"style": "tuples", "kind": "dt", "scalar": scalar, "hint": "last"}
+        for _ in range(40):
+            style = r.weighted(tuple_styles)
+            pts = gen.point_cloud(r, 6, style, scalar == "f32")
+            if r.chance(0.3):
+                # exactly collinear / cocircular by construction, then one coordinate moved by a few ulps
+                a, b = pts[0], pts[1]
+                pts[2] = (2 * b[0] - a[0], 2 * b[1] - a[1])
+                if r.chance(0.5):
+                    pts[2] = (gen.ulp_step(pts[2][0] if pts[2][0] != 0 else 1.0, r.range(-2, 2), scalar == "f32"), pts[2][1])
+            fl = []
+            for (x, y) in pts[:4]:
+                fl += [bits(x), bits(y)]
+            if scalar == "f32" and not all(gen.is_f32(gen.from_bits(b)) for b in fl):
+                continue
+            if r.chance(0.5):
+                c.add("msq", *fl[:6])
+            else:
+                c.add("mcic", *fl[:8])
+        out.append(c)
+    # through the public API: side_query on edge handles, locate on/near edges, the diagonal of four points
+    for i in range(n_cases(tier, 400, 5000)):
+        kind, scalar, hint = gen.pick_cfg(r, ("dt", "cdt"), 0.25)
+        style = r.weighted(tuple_styles)
+        c = Case("a%d" % i, kind, scalar, hint)
+        c.meta = {"style": style, "kind": kind, "scalar": scalar, "hint": hint}
+        pts = gen.point_cloud(r, r.choice([2, 3, 4, 4, 4, 5, 6]), style, scalar == "f32")
+        for j, (x, y) in enumerate(pts):
+            c.ins(x, y, j + 1)
+        qs = gen.point_cloud(r, 6, style, scalar == "f32") + pts
+        for _ in range(10):
+            x, y = r.choice(qs)
+            if r.chance(0.3) and len(pts) >= 2:
+                a, b = r.choice(pts), r.choice(pts)
+                x, y = (a[0] + b[0]) / 2.0, (a[1] + b[1]) / 2.0
+                if r.chance(0.5):
+                    x = gen.ulp_step(x if x != 0 else 1.0, r.range(-1, 1), scalar == "f32")
+            if scalar == "f32" and not (gen.is_f32(x) and gen.is_f32(y)):
+                continue
+            if r.chance(0.6):
+                c.add("sq", "d%d" % r.below(64), bits(x), bits(y))
+            else:
+                c.add("loc", bits(x), bits(y))
+        out.append(c)
+    return out
+
+def gen_C07(r, tier):
+    """every kind of operation after every kind of history; only panics and hangs are judged"""
+    out = []
+    q = 150 if tier != "thorough" else 1500
+    out += gen_hist(kinds=("dt", "cdt"), quick=q, thorough=q, w_addc=8, w_rmc=3, w_tryc=4, w_adde=3, w_insmid=4)(r, "quick")
+    out += gen_queries(("dt", "cdt"), ["loc", "loch", "locv", "nn", "hull", "vrect", "erect", "vcirc", "ecirc", "line", "lineh", "isc", "confp", "canc", "tryc"],
+                       q * 2, q * 2, styles=gen.STYLES, with_constraints=True, nq=14)(r, "quick")
+    out += gen_bulk(q, q)(r, "quick")
+    out += gen_lattice_cdt(q, q, qops=("canc", "tryc", "confv"))(r, "quick")
+    out += gen_wheel(q // 3, q // 3)(r, "quick")
+    out += PROPS["C05"]["gen"](r, "quick")[:q * 2]
+    for k, c in enumerate(out):
+        c.cid = "z%d" % k
+    return out
+
+PROPS.update({
+ "C06": dict(gen=gen_C06, tags=["sidequery", "delaunay", "locate", "geo", "parse", "decode"], level="proof",
+             rule="point tuples built to be exactly or almost degenerate: unimodular lattice chains (exact determinant +-1 at magnitude 2^20..2^30), large nearly collinear sets, "
+                  "ulp-perturbed collinear / cocircular tuples, mixed magnitudes 2^-142..2^195, f32 values widened; decided through the predicate wrappers directly (cfg hook) and through "
+                  "the public API (DirectedEdgeHandle::side_query, locate, the Delaunay diagonal of four points). Non-trivial: >= 3 operations.",
+             theorems="Props/C06.v", assumptions=["robust::orient2d / robust::incircle return a correctly signed finite value (Shewchuk)"]),
+ "C07": dict(gen=gen_C07, tags=["parse"], events=True, level="proof",
+             rule="union of the generators of the other properties (histories, queries incl. line iterators and shape queries, bulk loads, lattice CDTs, wheels, refills); a case fails when an operation "
+                  "panics outside the documented list or does not return within the watchdog time. Non-trivial: >= 3 operations.",
+             theorems="Props/C07.v", assumptions=["termination of the geometric walks (locate, legalization, flood fill, refine) is observed, not proved"]),
+})
+
+def polygon_case(r, c, d0=1):
+    """inserts a closed polygon (optionally with a hole / dangling edge / open polyline) via add_constraint_edges; returns its points"""
+    shape = r.below(6)
+    g = r.choice([4, 6, 10])
+    def P(x, y): return (float(x), float(y))
+    if shape == 0:      # square
+        rings = [([P(-g, -g), P(g, -g), P(g, g), P(-g, g)], True)]
+    elif shape == 1:    # square with a hole
+        h = g // 2
+        rings = [([P(-g, -g), P(g, -g), P(g, g), P(-g, g)], True), ([P(-h, -h), P(h, -h), P(h, h), P(-h, h)], True)]
+    elif shape == 2:    # open polyline
+        rings = [([P(-g, 0), P(0, r.range(1, g)), P(g, 0), P(g + 2, r.range(-g, g))], False)]
+    elif shape == 3:    # closed square + dangling edge outside
+        rings = [([P(-g, -g), P(g, -g), P(g, g), P(-g, g)], True), ([P(g + 2, 0), P(g + 5, r.range(-2, 2))], False)]
+    elif shape == 4:    # triangle with a sharp angle
+        rings = [([P(0, 0), P(4 * g, 0), P(4 * g, r.range(1, 3))], True)]
+    else:               # collinear input
+        rings = [([P(-g, 0), P(0, 0), P(g, 0)], False)]
+    pts = []
+    d = d0
+    for ring, closed in rings:
+        toks = []
+        for (x, y) in ring:
+            toks += [bits(x), bits(y), d]
+            d += 1
+            pts.append((x, y))
+        c.add("addes", len(ring), 1 if closed else 0, *toks)
+    return pts
+
+def gen_C20(r, tier):
+    out = []
+    for i in range(n_cases(tier, 400, 4000)):
+        kind, scalar, hint = gen.pick_cfg(r, ("cdt",), 0.2)
+        c = Case("f%d" % i, "cdt", scalar, hint)
+        c.meta = {"style": "refine", "kind": "cdt", "scalar": scalar, "hint": hint}
+        pts = polygon_case(r, c) if r.chance(0.75) else []
+        # extra free vertices
+        for _ in range(r.range(0, 6)):
+            x, y = float(r.range(-12, 12)), float(r.range(-12, 12))
+            c.ins(x, y, 300 + len(c.ops))
+        if r.chance(0.3):
+            for _ in range(r.range(1, 3)):
+                c.add("addc", "v%d" % r.below(64), "v%d" % r.below(64))
+        ratio = r.choice(["-", bits(1.0), bits(0.7071067811865476), bits(2.0), bits(0.6), bits(1e9), bits(0.0)])   # 0.0 ~ angle limit removed? (ratio 0 => everything refined)
+        if ratio == bits(0.0):
+            ratio = bits(5.0)
+        mina = r.choice(["-", "-", bits(0.5), bits(4.0)])
+        maxa = r.choice(["-", "-", bits(8.0), bits(50.0), bits(1.0)])
+        maxv = r.choice([0, 1, 3, 10, 30, 40]) if tier != "thorough" else r.choice(["-", 0, 1, 3, 10, 50, 120])
+        if maxv == "-" and (maxa != "-" or len(c.ops) > 8):
+            maxv = 120
+        keep = 1 if r.chance(0.25) else 0
+        excl = 1 if r.chance(0.5) else 0
+        c.add("refine", ratio, mina, maxa, maxv, keep, excl)
+        if r.chance(0.3):
+            c.add("refine", "-", "-", "-", r.choice([0, 5, 50]), 0, 1 if r.chance(0.5) else 0)
+        out.append(c)
+    return out
+
+def gen_C13(r, tier):
+    out = gen_lattice_cdt(n_cases(tier, 1200, 10000), n_cases(tier, 1200, 10000), w_split=25)(r, "quick")
+    for i in range(n_cases(tier, 300, 3000)):
+        # many constraints crossed by one split segment
+        kind, scalar, hint = gen.pick_cfg(r, ("cdt",), 0.25)
+        c = Case("x%d" % i, "cdt", scalar, hint)
+        c.meta = {"style": "split", "kind": "cdt", "scalar": scalar, "hint": hint}
+        g = r.choice([3, 4, 6])
+        d = 1
+        n = r.range(2, 6)
+        for k in range(n):
+            x = float(-g + 2 * k)
+            c.add("adde", bits(x), bits(float(-g - r.range(0, 2))), d, bits(x + r.choice([0.0, 1.0, -1.0])), bits(float(g + r.range(0, 2))), d + 1)
+            d += 2
+        c.ins(float(-g - 3), float(r.range(-1, 1)), d); d += 1
+        c.ins(float(g + 9), float(r.range(-1, 1)), d); d += 1
+        for _ in range(r.range(0, 4)):
+            c.ins(float(r.range(-g, g)), float(r.range(-g, g)), d); d += 1
+        for _ in range(r.range(1, 3)):
+            c.add("split", "v%d" % r.below(64), "v%d" % r.below(64))
+        out.append(c)
+    return out
+
+PROPS.update({
+ "C20": dict(gen=gen_C20, tags=["refine", "wf", "parse", "decode", "ncons"], events=True, level="proof",
+             rule="CDTs built from closed polygons (with holes, with dangling edges), open polylines, sharp angles, collinear input and free points; refine with combinations of "
+                  "angle limit, min/max area, vertex budget (incl. 0), keep_constraint_edges, exclude_outer_faces, f32/f64; possibly twice. Non-trivial: >= 2 operations.",
+             theorems="Props/C20.v", assumptions=["angle / area guarantees of a completed refinement are not decided (Ruppert's analysis is not formalised)"]),
+ "C13": dict(gen=gen_C13, tags=["split", "wf", "geo", "ncons", "noncross", "parse", "decode"], events=True, level="proof",
+             rule="lattice CDTs and fans of constraints crossed by add_constraint_and_split between random vertex pairs (through vertices, across several constraints, near-parallel, f32), repeated. "
+                  "Non-trivial: >= 3 operations.", theorems="Props/C13.v", assumptions=["the rounded position of a split vertex is not compared with the exact intersection"]),
+})
+for _p in ("C02",):
+    PROPS[_p]["gen"] = gen_union(PROPS[_p]["gen"], lambda r, tier: gen_C20(r, tier)[:n_cases(tier, 250, 2500)])
+PROPS["C03"]["gen"] = gen_union(PROPS["C03"]["gen"], lambda r, tier: gen_C13(r, tier)[:n_cases(tier, 600, 5000)])
+PROPS["C04"]["gen"] = gen_union(PROPS["C04"]["gen"], lambda r, tier: gen_C13(r, tier)[:n_cases(tier, 400, 4000)])
